@@ -3,14 +3,14 @@ level("C18",
       text=("Proved (kernel-checked, std axioms): eval_abs_le — for EVERY state whose game is not over (any bitboards, any uint8 heights, any reserves/ply, "
             "any weight vector; group lists = the analysed ones) |evaluate| <= B w n, B explicit and linear in |w f| (popcount<=64, height<256, <=65 groups); "
             "B_lt_threshold — B w 64 < WinThreshold for DefaultWeights[0..8], easyWeights, medWeights by `decide` on the extracted tables (re-checked when a weight/constant changes); "
-            "heuristic_inside / beyond_threshold_is_over (a value beyond the threshold denotes a finished game); terminal_outside — game over, size<=8, 0<=ply<=2*10^6: value 0 for a draw, "
+            "heuristic_inside / beyond_threshold_is_over (a value beyond the threshold denotes a finished game); eval_total — on every well-formed position (C02's WFBoard) evaluate returns a value: the computed index ws[Groups+w] stays inside Weights and Dimensions terminates; undecided_inside_rules / finished_outside_rules / c18 — the same with game end, winner and draw read from the rule book (Spec.outcome, via C02's gameOver_refines); terminal_outside — game over, size<=8, 0<=ply<=2*10^6: value 0 for a draw, "
             "else WinThreshold < |v| <= MaxEval with the sign of winner-vs-mover; winner_eval_spec for EvaluateWinner; terminal_beyond_bound — with the default weights a game finished at ply >= 2 685 000 scores <= WinThreshold "
             "(the ply hypothesis is necessary; outside the property's domain). "
             "Sampled (correspondence, every run): eval/evalw(easy, med, random weight vectors)/evalwinner/evalterm/score parts/control/mobility/Dimensions/threat counts on playouts, constructed boards, testdata games, "
             "feature-maximising boards per size, finished games at plies to 2*10^6 and beyond, arbitrary raw states; evalcheck = the property itself evaluated on the real code."),
       note=("Assumed: int64 arithmetic does not wrap (all intermediates of built-in sets are < 2^31 by the bound); the model is tied to the Go code by testing, not proof. "
-            "Not proved: that evaluate never panics/hangs on well-formed positions (scoreGroups' computed index ws[Groups+w] and Dimensions' loops are guarded in the model; the theorems are stated for returned values; no panic/hang was ever observed). "
-            "Game end is the model's GameOver (C02 links it to the rules)."))
+            "The bound B is deliberately coarse (popcount<=64, |captives|<=255 per square, <=65 groups): B(default, 64 squares) is about 2.5*10^7 against a threshold of 5.4*10^8; the largest undecided value met in the runs is below 2^24. "
+            "The rule-book forms assume C02's WFBoard and ReservesOK (evaluated on a third of the sampled in-domain positions; constructed positions with wrapped reserve bytes do not satisfy ReservesOK and are covered by the bit-level forms only)."))
 level("C19",
       technique="Lean 4 proof over executable models of ai.CountThreats and Position.MovePreallocated + differential correspondence with a one-ply search on the real code",
       text=("Proved (kernel-checked, std axioms, no extra hypotheses): threat_real — for every well-formed position (C02's WFBoard: sizes 3..8, consistent bitboards, group lists = analyze; "
